@@ -76,6 +76,22 @@ pub fn plan<'a>(ctx: &'a Ctx, rng: &mut Rng, tier: Tier) -> Plan<'a> {
                 if rng.chance(1, 4) { cfg.min_rep = 1 + rng.below(2) as u32; cfg.min_len = 1 + rng.below(2) as u32; }
                 cases.push(Case { tcs: t, cfg });
             }
+            // literal text that reads like a class token, repeated, next to members of that class repeated, under -r and the class
+            // option: the trie must keep the unit ["\\","d"] apart from the converted ["\\d"] although both join to the same text
+            for (tok, bit, members) in [("\\d", BIT_DIGIT, ["1", "7"]), ("\\s", BIT_SPACE, [" ", "\t"]), ("\\w", BIT_WORD, ["a", "_"]),
+                ("\\D", BIT_NON_DIGIT, ["a", "-"]), ("\\S", BIT_NON_SPACE, ["a", "1"]), ("\\W", BIT_NON_WORD, ["-", " "])] {
+                for n in 2usize..=3 {
+                    for m in members {
+                        for k in [n - 1, n] {
+                            for extra in [0u32, mask(&[BIT_CAP]), mask(&[BIT_VERB]), mask(&[BIT_ESC])] {
+                                let t = vec![m.repeat(k), tok.repeat(n)];
+                                cases.push(Case { tcs: t.clone(), cfg: Cfg::new(mask(&[BIT_REP, bit]) | extra) });
+                                cases.push(Case { tcs: vec![format!("x{}", t[0]), format!("x{}", t[1])], cfg: Cfg::new(mask(&[BIT_REP, bit]) | extra) });
+                            }
+                        }
+                    }
+                }
+            }
             Plan {
                 cases,
                 judge: Box::new(|c, b| judge::judge_sound(c, b)),
